@@ -315,14 +315,22 @@ def bounded_writers(ctx, b):
     vals = [0, 1, 10, 64, 36.5, 100, 33.333, 12.5, 640, 7]
     videos = [(640, 360), (1920, 1080), (720, 720), (None, None), (640, None), (None, 360), (1080, 1920)]
     n = 120 if not ctx.thorough else 2000
-    for i in range(n):
-        unit = rng.choice(list(UnitEnum))
-        W, H = rng.choice(videos)
-        ox, oy = rng.choice(vals), rng.choice(vals)
-        has_ext = rng.random() < 0.5
-        ew, eh = rng.choice(vals), rng.choice(vals)
-        level = rng.choice(["node", "caption", "language"])
-        fit = rng.choice([True, False])
+    # deterministic prefix: equal values on both axes, square video, landscape then portrait -
+    # the situations in which a result computed for one axis could be reused for the other
+    fixed = [(u, wh, v, v, he, v, v, lvl, ft)
+             for u in UnitEnum for wh in [(720, 720), (1920, 1080), (1080, 1920)] for v in (10, 7)
+             for he in (False, True) for lvl in ("node", "language") for ft in (True, False)]
+    for i in range(len(fixed) + n):
+        if i < len(fixed):
+            unit, (W, H), ox, oy, has_ext, ew, eh, level, fit = fixed[i]
+        else:
+            unit = rng.choice(list(UnitEnum))
+            W, H = rng.choice(videos)
+            ox, oy = rng.choice(vals), rng.choice(vals)
+            has_ext = rng.random() < 0.5
+            ew, eh = rng.choice(vals), rng.choice(vals)
+            level = rng.choice(["node", "caption", "language"])
+            fit = rng.choice([True, False])
         mk = lambda v: Size(v, unit)
         L = Layout(origin=Point(mk(ox), mk(oy)), extent=Stretch(mk(ew), mk(eh)) if has_ext else None,
                    padding=Padding(mk(1), mk(2), mk(3), mk(4)) if rng.random() < 0.4 else None)
